@@ -250,7 +250,11 @@ def drive(ctx, cfg, run, on_call=None):
         if cfg.get('iv_grid'):
             iv = cfg['iv_grid'][ctx.choice('ivg', len(cfg['iv_grid']))]
         else:
-            iv = ctx.int('iv', 1, cfg.get('IV', cfg['B']))
+            iv = ctx.int('iv', cfg.get('iv_min', 1), cfg.get('IV', cfg['B']))
+            if cfg.get('iv_min', 1) == 0 and 'zero-length call' not in \
+                    ctx.goals and ctx.symbolic and \
+                    ctx.solver.check_assuming(EQ(iv, 0).s) == 'sat':
+                ctx.goal('zero-length call')
         if cfg['forces'] == 'all' or (cfg['forces'] == 'last' and j == M - 1):
             force = True
         else:
